@@ -423,13 +423,14 @@ var typeToSize = [256]int8{
 	I64:    8,
 }
 
-func skipstr(p unsafe.Pointer, e uintptr) (int, error) {
-	if uintptr(p)+uintptr(4) <= e {
+// skipstr skips a string / binary at p; avail is the number of bytes available at p.
+func skipstr(p unsafe.Pointer, avail int) (int, error) {
+	if 4 <= avail {
 		n := int(p2i32(p))
 		if n < 0 {
 			return 0, errNegativeSize
 		}
-		if uintptr(p)+uintptr(4+n) <= e {
+		if 4+n <= avail {
 			return 4 + n, nil
 		}
 	}
@@ -441,17 +442,20 @@ func (BinaryProtocol) Skip(b []byte, t TType) (int, error) {
 	if len(b) == 0 {
 		return 0, errBufferTooShort
 	}
-	p := unsafe.Pointer(&b[0])
-	e := uintptr(p) + uintptr(len(b))
-	return skipType(p, e, t, defaultRecursionDepth)
+	return skipType(unsafe.Pointer(&b[0]), len(b), t, defaultRecursionDepth)
 }
 
-func skipType(p unsafe.Pointer, e uintptr, t TType, maxdepth int) (int, error) {
+// skipType skips a value of type t at p; avail is the number of bytes available at p.
+//
+// The extent is a byte count and not an end address: p may point into the goroutine's
+// stack, which moves when the recursion grows it, and an address held as an integer is
+// not adjusted then.
+func skipType(p unsafe.Pointer, avail int, t TType, maxdepth int) (int, error) {
 	if maxdepth == 0 {
 		return 0, errDepthLimitExceeded
 	}
 	if n := typeToSize[uint8(t)]; n > 0 {
-		if uintptr(p)+uintptr(n) > e {
+		if int(n) > avail {
 			return 0, errBufferTooShort
 		}
 		return int(n), nil
@@ -459,9 +463,9 @@ func skipType(p unsafe.Pointer, e uintptr, t TType, maxdepth int) (int, error) {
 	var err error
 	switch t {
 	case STRING:
-		return skipstr(p, e)
+		return skipstr(p, avail)
 	case MAP:
-		if uintptr(p)+uintptr(6) > e {
+		if 6 > avail {
 			return 0, errBufferTooShort
 		}
 		kt, vt, sz := TType(*(*byte)(p)), TType(*(*byte)(unsafe.Add(p, 1))), p2i32(unsafe.Add(p, 2))
@@ -471,50 +475,50 @@ func skipType(p unsafe.Pointer, e uintptr, t TType, maxdepth int) (int, error) {
 		ksz, vsz := int(typeToSize[uint8(kt)]), int(typeToSize[uint8(vt)])
 		if ksz > 0 && vsz > 0 { // fast path, fast skip
 			mapkvsize := (int(sz) * (ksz + vsz))
-			if uintptr(p)+uintptr(6+mapkvsize) > e {
+			if 6+mapkvsize > avail {
 				return 0, errBufferTooShort
 			}
 			return 6 + mapkvsize, nil
 		}
 		i := 6
 		for j := int32(0); j < sz; j++ {
-			if uintptr(p)+uintptr(i) >= e {
+			if i >= avail {
 				return 0, errBufferTooShort
 			}
 			ki := 0
 			if ksz > 0 {
 				ki = ksz
 			} else if kt == STRING {
-				ki, err = skipstr(unsafe.Add(p, i), e)
+				ki, err = skipstr(unsafe.Add(p, i), avail-i)
 			} else {
-				ki, err = skipType(unsafe.Add(p, i), e, kt, maxdepth-1)
+				ki, err = skipType(unsafe.Add(p, i), avail-i, kt, maxdepth-1)
 			}
 			if err != nil {
 				return i, err
 			}
 			i += ki
-			if uintptr(p)+uintptr(i) >= e {
+			if i >= avail {
 				return 0, errBufferTooShort
 			}
 			vi := 0
 			if vsz > 0 {
 				vi = vsz
 			} else if vt == STRING {
-				vi, err = skipstr(unsafe.Add(p, i), e)
+				vi, err = skipstr(unsafe.Add(p, i), avail-i)
 			} else {
-				vi, err = skipType(unsafe.Add(p, i), e, vt, maxdepth-1)
+				vi, err = skipType(unsafe.Add(p, i), avail-i, vt, maxdepth-1)
 			}
 			if err != nil {
 				return i, err
 			}
 			i += vi
 		}
-		if uintptr(p)+uintptr(i) > e {
+		if i > avail {
 			return 0, errBufferTooShort
 		}
 		return i, nil
 	case LIST, SET:
-		if uintptr(p)+uintptr(5) > e {
+		if 5 > avail {
 			return 0, errBufferTooShort
 		}
 		vt, sz := TType(*(*byte)(p)), p2i32(unsafe.Add(p, 1))
@@ -524,23 +528,23 @@ func skipType(p unsafe.Pointer, e uintptr, t TType, maxdepth int) (int, error) {
 		vsz := int(typeToSize[uint8(vt)])
 		if vsz > 0 { // fast path, fast skip
 			listvsize := int(sz) * vsz
-			if uintptr(p)+uintptr(5+listvsize) > e {
+			if 5+listvsize > avail {
 				return 0, errBufferTooShort
 			}
 			return 5 + listvsize, nil
 		}
 		i := 5
 		for j := int32(0); j < sz; j++ {
-			if uintptr(p)+uintptr(i) >= e {
+			if i >= avail {
 				return 0, errBufferTooShort
 			}
 			vi := 0
 			if vsz > 0 {
 				vi = vsz
 			} else if vt == STRING {
-				vi, err = skipstr(unsafe.Add(p, i), e)
+				vi, err = skipstr(unsafe.Add(p, i), avail-i)
 			} else {
-				vi, err = skipType(unsafe.Add(p, i), e, vt, maxdepth-1)
+				vi, err = skipType(unsafe.Add(p, i), avail-i, vt, maxdepth-1)
 			}
 			if err != nil {
 				return i, err
@@ -551,7 +555,7 @@ func skipType(p unsafe.Pointer, e uintptr, t TType, maxdepth int) (int, error) {
 	case STRUCT:
 		i := 0
 		for {
-			if uintptr(p)+uintptr(i) >= e {
+			if i >= avail {
 				return i, errBufferTooShort
 			}
 			ft := TType(*(*byte)(unsafe.Add(p, i)))
@@ -560,16 +564,16 @@ func skipType(p unsafe.Pointer, e uintptr, t TType, maxdepth int) (int, error) {
 				return i, nil
 			}
 			i += 2 // Field ID
-			if uintptr(p)+uintptr(i) >= e {
+			if i >= avail {
 				return i, errBufferTooShort
 			}
 			fi := 0
 			if typeToSize[uint8(ft)] > 0 {
 				fi = int(typeToSize[uint8(ft)])
 			} else if ft == STRING {
-				fi, err = skipstr(unsafe.Add(p, i), e)
+				fi, err = skipstr(unsafe.Add(p, i), avail-i)
 			} else {
-				fi, err = skipType(unsafe.Add(p, i), e, ft, maxdepth-1)
+				fi, err = skipType(unsafe.Add(p, i), avail-i, ft, maxdepth-1)
 			}
 			if err != nil {
 				return i, err
